@@ -48,7 +48,7 @@ func gen(t *rapid.T) Case {
 	if rapid.IntRange(0, 2).Draw(t, "hostile") == 0 {
 		n := rapid.IntRange(1, 5).Draw(t, "nb")
 		for i := 0; i < n; i++ {
-			c.Behaviors = append(c.Behaviors, rapid.SampledFrom([]string{"prompt", "prompt", "late", "dead", "never"}).Draw(t, "b"))
+			c.Behaviors = append(c.Behaviors, rapid.SampledFrom([]string{"prompt", "prompt", "late", "dead", "reset", "reset", "never"}).Draw(t, "b"))
 		}
 	} else {
 		c.Behaviors = []string{"prompt"}
@@ -203,6 +203,17 @@ func run(c Case) error {
 						mu.Unlock()
 						w.conn.Close()
 					}
+				case "reset":
+					// delivered, then aborted (RST) while it sits in the pool: the server's StartWorkConn write fails
+					if w := open(false); w != nil {
+						mu.Lock()
+						w.dead = true
+						mu.Unlock()
+						if tc, ok := w.conn.(*net.TCPConn); ok {
+							_ = tc.SetLinger(0)
+						}
+						w.conn.Close()
+					}
 				case "never":
 				}
 			}
@@ -339,7 +350,7 @@ func run(c Case) error {
 	defer mu.Unlock()
 	allPrompt := true
 	for _, b := range c.Behaviors {
-		if b == "dead" || b == "never" {
+		if b == "dead" || b == "reset" || b == "never" {
 			allPrompt = false
 		}
 	}
